@@ -138,7 +138,29 @@ def qudit_gate(cirq, rng, dims):
     return cirq.MatrixGate(rand_unitary(rng, int(np.prod(dims))), qid_shape=tuple(dims))
 
 
-def random_unitary_circuit(cirq, rng, *, max_wires=5, qudits=False, max_ops=10, classical=False, phases=False):
+def ancilla_gate(cirq, rng, k):
+    """a gate without a matrix of its own whose decomposition borrows ancilla qubits; its docstring defines the matrix on the targets"""
+    import cirq.testing as ct
+
+    if rng.random() < 0.7:
+        return ct.PhaseUsingCleanAncilla(theta=round(rng.uniform(-1, 1), 3), phase_state=rng.randrange(2**k), target_bitsize=k, ancilla_bitsize=rng.choice([1, 1, 2]))
+    return ct.PhaseUsingDirtyAncilla(phase_state=rng.randrange(2**k), target_bitsize=k, ancilla_bitsize=rng.choice([1, 2]))
+
+
+def op_unitary(cirq, op):
+    """the matrix of an operation: cirq.unitary(op) (tied to the documentation by C03), except for the ancilla-borrowing sample gates, whose
+    documented matrix (the phase on one basis state of the targets, in the order of the operation's qubits) is written out here"""
+    import cirq.testing as ct
+
+    g = getattr(op, 'gate', None)
+    if isinstance(g, (ct.PhaseUsingCleanAncilla, ct.PhaseUsingDirtyAncilla)):
+        m = np.eye(2**g.target_bitsize, dtype=np.complex128)
+        m[g.phase_state, g.phase_state] = np.exp(1j * np.pi * g.theta) if isinstance(g, ct.PhaseUsingCleanAncilla) else -1
+        return m
+    return cirq.unitary(op)
+
+
+def random_unitary_circuit(cirq, rng, *, max_wires=5, qudits=False, max_ops=10, classical=False, phases=False, ancilla=False):
     """returns (circuit, qids) — all operations unitary; random moment structure"""
     n = rng.randint(1, max_wires)
     if qudits:
@@ -175,6 +197,8 @@ def random_unitary_circuit(cirq, rng, *, max_wires=5, qudits=False, max_ops=10, 
             ops.append(rng.choice(g).on(*targets))
         elif any(d != 2 for d in tdims):
             ops.append(qudit_gate(cirq, rng, tdims).on(*targets))
+        elif ancilla and rng.random() < 0.05:
+            ops.append(ancilla_gate(cirq, rng, k).on(*targets))
         else:
             g = {1: one_qubit_gate, 2: two_qubit_gate, 3: three_qubit_gate}[k](cirq, rng)
             ops.append(g.on(*targets))
